@@ -194,6 +194,7 @@ pub struct Info {
     pub wrapped: bool,
     pub flows: usize,
     pub undecodable: bool,
+    pub drain_skipped: bool,
 }
 
 pub async fn run_async(c: &Case, on_take_open: bool, excluded: &std::cell::Cell<u32>) -> Result<Info, String> {
@@ -225,7 +226,7 @@ pub async fn run_async(c: &Case, on_take_open: bool, excluded: &std::cell::Cell<
     let mut limit: u64 = 0; // latest advertised delivery-count + link-credit, as offset from i0
     let mut next_delivery_id: u32 = cfg.peer_next_outgoing_id;
     let mut frames_sent: u64 = 0;
-    let mut info = Info { long_stream: false, overrun: false, wrapped: false, flows: 0, undecodable: false };
+    let mut info = Info { long_stream: false, overrun: false, wrapped: false, flows: 0, undecodable: false, drain_skipped: false };
     let mut received_at_last_settle: u64 = 0;
     let mut policy_credit: Option<u64> = c.auto.map(|n| n as u64);
     // the next flow is the one an explicit drain() produces: only that one may carry drain=true
@@ -233,6 +234,12 @@ pub async fn run_async(c: &Case, on_take_open: bool, excluded: &std::cell::Cell<
     // under Auto a drain that the sender answered leaves the link without credit until the next refresh:
     // the no-stall assertion is suspended in between (the statement speaks of a stream, not of drain)
     let mut auto_drained = false;
+    // credit the sender consumed by advancing its delivery-count in answer to a drain (deliveries that do not
+    // exist): the sender's delivery-count is i0 + skip_total + arrived
+    let mut skip_total: u64 = 0;
+    // set between such an answer and the receiver's next flow: the receiver's own idea of the remaining credit
+    // is not observable then, so the overrun phase (which needs the exact limit) is not run
+    let mut limit_unknown = false;
 
     macro_rules! step {
         ($what:expr) => {{
@@ -257,7 +264,8 @@ pub async fn run_async(c: &Case, on_take_open: bool, excluded: &std::cell::Cell<
                         if !fdrain && fcredit > 0 {
                             auto_drained = false;
                         }
-                        let off = fdc.wrapping_sub(c.i0) as u64;
+                        let off = fdc.wrapping_sub(c.i0).wrapping_sub(skip_total as u32) as u64;
+                        limit_unknown = false;
                         if off < received_at_last_settle || off > arrived {
                             return Err(format!(
                                 "{}: flow reports delivery-count {} but the sender's count was {} at attach, {} deliveries had been taken by the application before this step and {} have arrived (expected between {} and {})",
@@ -266,8 +274,8 @@ pub async fn run_async(c: &Case, on_take_open: bool, excluded: &std::cell::Cell<
                                 c.i0,
                                 received_at_last_settle,
                                 arrived,
-                                c.i0.wrapping_add(received_at_last_settle as u32),
-                                c.i0.wrapping_add(arrived as u32)
+                                c.i0.wrapping_add(skip_total as u32).wrapping_add(received_at_last_settle as u32),
+                                c.i0.wrapping_add(skip_total as u32).wrapping_add(arrived as u32)
                             ));
                         }
                         if let Some(want) = model_credit {
@@ -276,7 +284,7 @@ pub async fn run_async(c: &Case, on_take_open: bool, excluded: &std::cell::Cell<
                             }
                         }
                         limit = off + fcredit;
-                        if c.i0 as u64 + off > u32::MAX as u64 {
+                        if c.i0 as u64 + skip_total + off > u32::MAX as u64 {
                             info.wrapped = true;
                         }
                     }
@@ -421,22 +429,39 @@ pub async fn run_async(c: &Case, on_take_open: bool, excluded: &std::cell::Cell<
                 // refresh counter, so the assertion resumes only after the next refresh)
                 auto_drained = c.auto.is_some();
                 // answer the drain: the peer gives the credit back
-                let body = Peer::flow_body(
+                let mut body = Peer::flow_body(
                     Some(cfg.ep_next_outgoing_id),
                     100_000,
                     cfg.peer_next_outgoing_id.wrapping_add(frames_sent as u32),
                     100_000,
                     Some(ph),
-                    Some(c.i0.wrapping_add(limit.max(arrived) as u32)),
+                    Some(c.i0.wrapping_add(skip_total as u32).wrapping_add(limit.max(arrived) as u32)),
                     Some(0),
                     true,
                     false,
                 );
+                // the sender may or may not say how many messages it has available (every other time)
+                if k % 2 == 1 {
+                    if let RValue::Described(_, l) = &mut body {
+                        if let RValue::List(f) = &mut **l {
+                            while f.len() < 8 {
+                                f.push(RValue::Null);
+                            }
+                            f[7] = RValue::Uint(0);
+                        }
+                    }
+                }
                 // the drained credit advances the sender's count without deliveries: fold it into the model
                 // by treating it as if the skipped deliveries do not exist (count origin moves)
                 let skipped = limit.saturating_sub(arrived);
-                if skipped == 0 && (received == arrived || !on_take_open) {
+                if received == arrived || !on_take_open {
                     peer.send_frame(my_ch, &body, &[]).await?;
+                    if skipped > 0 {
+                        skip_total += skipped;
+                        limit = arrived;
+                        limit_unknown = true;
+                        info.drain_skipped = true;
+                    }
                     credit_var = 0;
                     model_credit = None;
                     auto_drained = c.auto.is_some();
@@ -452,7 +477,7 @@ pub async fn run_async(c: &Case, on_take_open: bool, excluded: &std::cell::Cell<
                     cfg.peer_next_outgoing_id.wrapping_add(frames_sent as u32),
                     100_000,
                     Some(ph),
-                    Some(c.i0.wrapping_add(arrived as u32)),
+                    Some(c.i0.wrapping_add(skip_total as u32).wrapping_add(arrived as u32)),
                     Some(limit.saturating_sub(arrived) as u32),
                     false,
                     false,
@@ -490,7 +515,7 @@ pub async fn run_async(c: &Case, on_take_open: bool, excluded: &std::cell::Cell<
     }
     // (with auto_accept under Auto the receiver re-issues credit while the application takes the deliveries
     // that are within credit, so no delivery stays beyond the credit: the overrun clause is exercised without it)
-    if c.overrun_at_end && !(c.auto_accept && c.auto.is_some()) {
+    if c.overrun_at_end && !(c.auto_accept && c.auto.is_some()) && !limit_unknown {
         // use up the remaining credit, then send one delivery too many
         let mut guard = 0;
         while arrived < limit && guard < 300 {
@@ -566,7 +591,7 @@ fn case(ctx: &ShardCtx, c: &Case, obs: &mut Obs) -> Result<(), String> {
     }
     match r {
         Ok(Ok(info)) => {
-            for (b, n) in [(info.long_stream, "stream-longer-than-6x-credit"), (info.overrun, "overrun-injected"), (info.wrapped, "delivery-count-crossed-2^32"), (info.flows > 2, "several-flows-checked"), (info.undecodable, "undecodable-delivery"), (c.auto_accept, "auto-accept")] {
+            for (b, n) in [(info.long_stream, "stream-longer-than-6x-credit"), (info.overrun, "overrun-injected"), (info.wrapped, "delivery-count-crossed-2^32"), (info.flows > 2, "several-flows-checked"), (info.undecodable, "undecodable-delivery"), (info.drain_skipped, "drain-answered-by-advancing-delivery-count"), (c.auto_accept, "auto-accept")] {
                 if b {
                     obs.class(n);
                 }
